@@ -51,7 +51,7 @@ def showTables (n : Node) : String :=
     let keys := "/".intercalate (c.hops.map fun h => toString h.key)
     let ha := match c.firstHop with | some h => h.addr | none => 0
     let up := match c.unv with | some h => h.peer | none => 0
-    s!"{cid},{c.goal},{keys},{ha},{up},{c.retry},{c.reCount}"
+    s!"{cid},{c.goal},{keys},{ha},{up},{c.retry},{c.reCount},{b2n c.closing}"
   let r := n.relays.map fun (cid, r) =>
     s!"{cid},{r.next},{r.hop.addr},{r.hop.peer},{r.hop.key},{dirNum r.dir},{r.reCount}"
   let e := n.exits.map fun (cid, e) => s!"{cid},{e.hop.addr},{e.hop.peer},{e.hop.key},{e.phase},{e.queue.length}"
@@ -123,6 +123,10 @@ def stepLine (net : Net) (toks : List String) : Net × String :=
   | ["reset", n] =>
     match n.toNat? with
     | some n => ({ nodes := (List.range n).map fun i => Node.init (i + 1) }, "ok")
+    | none => bad
+  | ["reset", n, "defer"] =>
+    match n.toNat? with
+    | some n => ({ nodes := (List.range n).map fun i => { Node.init (i + 1) with defer := true } }, "ok")
     | none => bad
   | "xr" :: node :: cid :: rest =>
     match node.toNat?, cid.toNat? with
@@ -207,6 +211,18 @@ def stepLine (net : Net) (toks : List String) : Net × String :=
       | "xp", [i, num] =>
         match getNode net i with
         | some n => finish net (expireCreate n num, [])
+        | none => bad
+      | "rxC", [i, cid] =>
+        match getNode net i with
+        | some n => finish net (popCircuit n cid, [])
+        | none => bad
+      | "rxR", [i, cid] =>
+        match getNode net i with
+        | some n => finish net (popRelay n cid, [])
+        | none => bad
+      | "rxE", [i, cid] =>
+        match getNode net i with
+        | some n => finish net (popExit n cid, [])
         | none => bad
       | "rmC", [i, cid] =>
         match getNode net i with
